@@ -23,7 +23,7 @@ FORMS = ['keys-int', 'keys-name', 'keys-mixed', 'mapping-int', 'mapping-name', '
          'convenience-values', 'convenience-kw', 'name', 'fromkeysvalues', 'full-values']
 BAD = ['length-mismatch', 'length-mismatch-grades', 'keys-outside-grades', 'kw-outside-grades', 'invalid-grade', 'negative-grade',
        'graded-incomplete-keys', 'graded-incomplete-mapping', 'graded-incomplete-kw', 'graded-incomplete-name', 'graded-incomplete-fromkw-perm',
-       'kw-blade-outside-algebra', 'repeated-grade']
+       'kw-blade-outside-algebra', 'repeated-grade', 'int-key-outside-algebra']
 KINDS = ['int', 'frac', 'float', 'str', 'sympy', 'ndarray']
 
 
@@ -363,6 +363,35 @@ def read_back(ctx, alg, iso, mv, expected):
             P.append(['map-2arg'])
     except Exception as e:
         P.append(['map raised', repr(e)[:80]])
+    # map / filter with callables that are not plain Python functions (no __code__): one-argument converters applied to each value
+    import functools, operator
+    from fractions import Fraction as _Fr
+
+    class _Times3:
+        def __call__(self, v):
+            return v * 3
+    plain_ints = bool(vals) and all(type(v) is int for v in vals)
+    convs = [('functools.partial(operator.mul, 3)', functools.partial(operator.mul, 3), lambda v: v * 3), ('callable object', _Times3(), lambda v: v * 3)]
+    if plain_ints:
+        convs += [('Fraction', _Fr, _Fr), ('complex', complex, complex), ('round', round, round), ('float', float, float), ('abs', abs, abs)]
+    for label, fn, model in convs:
+        try:
+            mc = mv.map(fn)
+            ctx.count('map_reads_codeless_callable')
+            if tuple(mc.keys()) != keys or any(not (coef_equal(a, model(b)) and (not plain_ints or a == model(b))) for a, b in zip(mc.values(), vals)):
+                P.append(['map with ' + label, [show(v, 30) for v in list(mc.values())[:4]], [show(model(b), 30) for b in vals[:4]]])
+        except Exception as e:
+            P.append(['map with ' + label + ' raised', repr(e)[:80]])
+    if plain_ints:
+        for label, fn in (('complex', complex), ('bool', bool), ('Fraction', _Fr)):
+            try:
+                fc = mv.filter(fn)
+                ctx.count('filter_reads_codeless_callable')
+                wantc = {k: v for k, v in zip(keys, vals) if v != 0}
+                if set(fc.keys()) != set(wantc) or any(not coef_equal(v, wantc[k]) for k, v in zip(fc.keys(), fc.values())):
+                    P.append(['filter with ' + label, sorted(fc.keys()), sorted(wantc)])
+            except Exception as e:
+                P.append(['filter with ' + label + ' raised', repr(e)[:80]])
     # filter
     try:
         pick = set(rng.sample(list(keys), len(keys) // 2)) if keys else set()
@@ -456,6 +485,24 @@ def bad_case(ctx, alg, iso, cfg, name, what):
 
         def f():
             return alg.multivector(**valid, **{bad_name: 7})
+    elif what == 'int-key-outside-algebra':
+        # an integer key that is not one of the 2^d blades (too large, or negative), next to valid ones: no spelling can read its coefficient back
+        if graded:
+            valid = list(alg.indices_for_grades[(1,)]) if d >= 1 else [0]
+        else:
+            valid = list(gen.random_subset(rng, canon, 3, 0))
+        badkey = rng.choice([2 ** d, 2 ** d + rng.randint(1, 5), 2 ** (d + 1), -1, -rng.randint(2, 2 ** d + 1)])
+        ks = list(valid)
+        ks.insert(rng.randint(0, len(ks)), badkey)
+        how = rng.choice(('keys', 'mapping', 'vector-mapping'))
+        desc = {'keys': ks, 'key_outside_algebra': badkey, 'how': how}
+
+        def f():
+            if how == 'keys':
+                return alg.multivector(keys=tuple(ks), values=[2 + i for i in range(len(ks))])
+            if how == 'mapping':
+                return alg.multivector({k: 2 + i for i, k in enumerate(ks)})
+            return alg.vector({k: 2 + i for i, k in enumerate([k for k in ks if k == badkey or bin(k).count('1') == 1])})
     elif what == 'repeated-grade':
         # a grades tuple naming the same grade twice cannot describe a multivector: the value list would address blades twice
         g = rng.randint(0, d)
